@@ -37,7 +37,8 @@ EvFlags(e) ==
       \cup (IF e.op = "block" /\ e.wait > exactWait /\ ~(boundary /\ e.wait <= 1) THEN {"waitlong"} ELSE {})
       \cup (IF e.op = "block" /\ e.wait < exactWait /\ ~boundary THEN {"waitshort"} ELSE {})
 
-StateFlag(e) == IF Abs(e.tok - tok') > 1 THEN {"state"} ELSE {}
+\* (at a threshold - exact token count equal to the cost - float rounding may take either branch)
+StateFlag(e) == IF (Abs(e.tok - tok') > 1 \/ e.st # stamp') /\ PeekF(1)[1] # RD THEN {"state"} ELSE {}
 
 \* the judge re-synchronises with the observed bucket (token count, refill time stamp) after a
 \* deviation has been flagged, so that one float rounding at a threshold does not colour the
@@ -45,8 +46,7 @@ StateFlag(e) == IF Abs(e.tok - tok') > 1 THEN {"state"} ELSE {}
 InSync == IF l = 1 THEN TRUE ELSE (Abs(Ev[l - 1].tok - tok) <= 1 /\ Ev[l - 1].st = stamp)
 Resync == /\ l > 1 /\ l <= Len(Ev) + 1 /\ ~InSync
           /\ tok' = Ev[l - 1].tok /\ stamp' = Ev[l - 1].st
-          /\ flags' = flags \cup {"state"}
-          /\ UNCHANGED <<now, cap, rn, grants, epoch, mcap, mrn, last, nops, tid, l>>
+          /\ UNCHANGED <<now, cap, rn, grants, epoch, mcap, mrn, last, nops, tid, l, flags>>
 
 TEvent ==
   /\ l <= Len(Ev) /\ InSync
